@@ -1,6 +1,8 @@
 From Coq Require Import Extraction ExtrOcamlBasic.
-From Elk Require Import Base.GoSem Model.C22_Civil.
+From Elk Require Import Base.GoSem Model.C22_Civil Model.C22_Zone.
 Extraction Language OCaml.
 Separate Extraction days_from_civil civil_from_days go_date pack unpack add_span sub_span diff cmp
   add_spec format parse span_parts span_of_parts make_span year_in_range days_in_month valid_dateb
-  default_format to_string Z.of_nat Z.to_nat Z.add Z.mul Z.opp Z.sub Z.compare Z.eqb Z.ltb Z.leb.
+  default_format to_string Z.of_nat Z.to_nat Z.add Z.mul Z.opp Z.sub Z.compare Z.eqb Z.ltb Z.leb
+  mk_dt instant in_zone add_time add_date zcmp zformat zparse zdefault_format fmt_off parse_off
+  run_memo run_isolated key_unsigned key_signed.
